@@ -162,4 +162,12 @@ example : (∀ x ∈ [XR.fin (-1000), XR.ninf, XR.fin (-1600)], x.isLogP) ∧ fi
   · intro x hx; simp at hx; rcases hx with h | h | h <;> subst h <;> trivial
   · simp [finites]
 
+/-- `LogNorm` = exact softmax over the reals (`-inf ↦ 0`), summing to 1 -/
+theorem logNorm_spec (v : List XR) (hv : ∀ x ∈ v, x.isLogP) (hfin : finites v ≠ []) :
+    logNorm v = some ((softmax v).map XR.fin) ∧ (softmax v).sum = 1 := Vec.logNorm_spec v hv hfin
+/-- `RelEntropy`: `+inf` (early return) iff some `p_i > 0` has `q_i = 0`, else `Σ_{p_i>0} p_i log2 (p_i/q_i)` -/
+theorem relEntropyGo_spec (p q : List ℝ) (kl : ℝ) :
+    relEntropyGo p q kl = if (∃ ab ∈ List.zip p q, 0 < ab.1 ∧ ab.2 = 0) then none else some (kl + (klTerms p q).sum) :=
+  Vec.relEntropyGo_spec p q kl
+
 end EaselModel.Props.C20
